@@ -115,6 +115,7 @@ type feature struct {
 	name  string
 	apply func(d *schemaDoc)
 	crlf  bool
+	noEOL bool // the file ends right after the last ';'
 }
 
 func features() []feature {
@@ -194,6 +195,7 @@ func features() []feature {
 	})
 	add("blank-lines", func(d *schemaDoc) { d.types = append([]string{"", ""}, append(d.types, "", "")...) })
 	fs = append(fs, feature{name: "crlf", apply: func(d *schemaDoc) {}, crlf: true})
+	fs = append(fs, feature{name: "no-newline-at-end-of-file", apply: func(d *schemaDoc) {}, noEOL: true})
 	for _, r := range []string{"Point", "Shape", "Color", "Bool", "int", "long", "string", "Vector<int>", "Vector<long>", "Vector<Point>", "Vector<Shape>", "Vector<Color>"} {
 		r := r
 		add("returns:"+r, func(d *schemaDoc) { d.fn("fetch#ID id:int = %s;", r) })
